@@ -16,8 +16,9 @@ namespace Fastor {
 template<typename T, size_t ... Rest>
 class TensorMap: public AbstractTensor<TensorMap<T, Rest...>,sizeof...(Rest)> {
 public:
-    using scalar_type      = T;
-    using simd_vector_type = choose_best_simd_vector_t<T>;
+    // the element type without cv-qualifiers (a map of a const buffer computes with the plain type)
+    using scalar_type      = remove_all_t<T>;
+    using simd_vector_type = choose_best_simd_vector_t<remove_all_t<T>>;
     using simd_abi_type    = typename simd_vector_type::abi_type;
     using result_type      = Tensor<remove_all_t<T>,Rest...>;
     using dimension_t      = std::integral_constant<FASTOR_INDEX, sizeof...(Rest)>;
@@ -35,7 +36,7 @@ public:
 
     // Constructors
     //----------------------------------------------------------------------------------------------------------//
-    constexpr TensorMap(scalar_type* data) : _data(data) {}
+    constexpr TensorMap(T* data) : _data(data) {}
     template<size_t ... RestOther> constexpr TensorMap(Tensor<T,RestOther...> &a) : _data(a.data()) {}
     //----------------------------------------------------------------------------------------------------------//
 
@@ -155,7 +156,7 @@ public:
 
 
 private:
-    scalar_type* _data;
+    T* _data;
 };
 
 FASTOR_MAKE_OS_STREAM_TENSOR0(TensorMap)
